@@ -18,6 +18,12 @@ def check(prop, level, technique_note):
     return deco
 
 
+def mut(rng, t, **kw):
+    """mutate_tree, never producing a same-path same-size same-mtime content change against the
+    tree it started from (excluded by the statements; see cvlib.distinct_from_history)."""
+    return cvlib.distinct_from_history(mutate_tree(rng, t, **kw), [t])
+
+
 def sid(prop, kind, i):
     return f"{prop}-{kind}-{i:04d}"
 
@@ -123,6 +129,7 @@ def history_steps(rng, nsteps, interrupts=True, deletes=True, observe="restore_a
     observing every surviving version after every step."""
     t = random_tree(rng, nmax=nmax, depth=3, pre_epoch=pre_epoch, maxlen=9)
     steps = [{"op": "tree", "tree": t}]
+    earlier = [t]
     nb = 0          # next band id (predicted; only used to pick delete sets)
     live = []       # predicted live band ids
     last_incomplete = False
@@ -130,7 +137,8 @@ def history_steps(rng, nsteps, interrupts=True, deletes=True, observe="restore_a
         r = rng.random()
         if r < 0.55 or not live:
             if i > 0 and rng.random() < 0.8:
-                t = mutate_tree(rng, t, maxlen=9)
+                t = cvlib.distinct_from_history(mutate_tree(rng, t, maxlen=9), earlier)
+                earlier.append(t)
                 steps.append({"op": "tree", "tree": t})
             o = rng.choice(OPTS_POOL)
             if interrupts and rng.random() < 0.3:
@@ -209,14 +217,14 @@ def gen_c14(tier, seed):
         o2 = rng.choice([o, o, rng.choice(OPTS_POOL)])
         steps = [{"op": "tree", "tree": t}, bk(o), bk(o2)]
         if rng.random() < 0.5:
-            t2 = mutate_tree(rng, t, maxlen=9)
+            t2 = mut(rng, t, maxlen=9)
             steps += [{"op": "tree", "tree": t2}, bk(o), {"op": "tree", "tree": t}, bk(o)]
         scens.append({"id": sid("C14", "u", i), "props": ["C14"], "mode": "clean", "tags": ["unchanged"], "steps": steps})
     m = 16 if tier == "quick" else 200
     for i in range(m):
         # resume: every crash point of an interrupted run, followed by a backup of the same source
         t0 = random_tree(rng, nmax=5, pre_epoch=False, maxlen=9)
-        t1 = mutate_tree(rng, t0, maxlen=9)
+        t1 = mut(rng, t0, maxlen=9)
         o = rng.choice(OPTS_POOL[:5] + [{"H": 1000, "M": 1000, "S": 1000}, {"H": 3, "M": 8, "S": 4}])
         pre = rng.random() < 0.75
         steps = ([{"op": "tree", "tree": t0}, bk(o)] if pre else [])
@@ -249,18 +257,18 @@ def gen_c03(tier, seed):
         prev = ["none", "one", "two", "incomplete", "emptyhead", "one", "headless"][i % 7]
         steps = []
         if prev != "none":
-            t0 = mutate_tree(rng, t1, maxlen=8)
+            t0 = mut(rng, t1, maxlen=8)
             steps += [{"op": "tree", "tree": t0}, bk(rng.choice(OPTS_POOL[:6]))]
             if prev == "two":
-                steps += [{"op": "tree", "tree": mutate_tree(rng, t0, maxlen=8)}, bk(o)]
+                steps += [{"op": "tree", "tree": mut(rng, t0, maxlen=8)}, bk(o)]
             if prev == "incomplete":
-                steps += [{"op": "tree", "tree": mutate_tree(rng, t0, maxlen=8)}, bk(o, crash_at=rng.randrange(8, 30))]
+                steps += [{"op": "tree", "tree": mut(rng, t0, maxlen=8)}, bk(o, crash_at=rng.randrange(8, 30))]
             if prev == "emptyhead":
                 # an earlier run killed while writing its BANDHEAD (zero-length head), between a complete
                 # version and the run under test
-                steps += [{"op": "tree", "tree": mutate_tree(rng, t0, maxlen=8)}, bk(o, crash_at=6, crash_empty=True)]
+                steps += [{"op": "tree", "tree": mut(rng, t0, maxlen=8)}, bk(o, crash_at=6, crash_empty=True)]
             if prev == "headless":
-                steps += [{"op": "tree", "tree": mutate_tree(rng, t0, maxlen=8)}, bk(o, crash_at=rng.choice([5, 6]))]
+                steps += [{"op": "tree", "tree": mut(rng, t0, maxlen=8)}, bk(o, crash_at=rng.choice([5, 6]))]
         steps += [{"op": "tree", "tree": t1},
                   {"op": "sweep", "base": bk(o), "mode": "crash_both", "sample": 0 if tier != "quick" else 24, "seed": seed * 100 + i,
                    "then": AFTER_CRASH + [bk(o), {"op": "restore", "band": -1}]}]
@@ -294,7 +302,7 @@ def gen_c04(tier, seed):
         t1 = with_dups(rng, random_tree(rng, nmax=rng.choice([4, 6, 9]), pre_epoch=False, maxlen=6, symlinks=False, depth=2))
         steps = []
         if rng.random() < 0.6:
-            steps += [{"op": "tree", "tree": mutate_tree(rng, t1, maxlen=6)}, bk(rng.choice(OPTS_POOL[:5]))]
+            steps += [{"op": "tree", "tree": mut(rng, t1, maxlen=6)}, bk(rng.choice(OPTS_POOL[:5]))]
         writes = i % 3 != 2
         sw = {"op": "sweep", "base": bk(o), "mode": "fail", "sample": 0 if tier != "quick" else (48 if writes else 24),
               "seed": seed * 100 + i, "then": after}
@@ -309,7 +317,7 @@ def gen_c04(tier, seed):
         t1 = with_dups(rng, random_tree(rng, nmax=rng.choice([4, 6, 9]), pre_epoch=False, maxlen=6, symlinks=False, depth=2))
         steps = []
         if rng.random() < 0.5:
-            steps += [{"op": "tree", "tree": mutate_tree(rng, t1, maxlen=6)}, bk(rng.choice(OPTS_POOL[:5]))]
+            steps += [{"op": "tree", "tree": mut(rng, t1, maxlen=6)}, bk(rng.choice(OPTS_POOL[:5]))]
         steps += [{"op": "tree", "tree": t1}, bk(o, fail_p=rng.choice([0.03, 0.08, 0.15]), fail_seed=seed * 7919 + i,
                                                   **({"fail_verbs": ["write", "create_dir"]} if i % 2 else {}))] + after
         scens.append({"id": sid("C04", "mf", i), "props": ["C04"], "mode": "fault", "tags": ["multi-fault"], "steps": steps})
@@ -477,9 +485,9 @@ def gen_c07(tier, seed):
         t0 = random_tree(rng, nmax=4, pre_epoch=False, maxlen=6)
         for _ in range(rng.randrange(0, 3)):
             steps += [{"op": "tree", "tree": t0}, bk(o)]
-            t0 = mutate_tree(rng, t0, maxlen=6)
+            t0 = mut(rng, t0, maxlen=6)
         ta = random_tree(rng, nmax=4, pre_epoch=False, maxlen=6)
-        tb = mutate_tree(rng, ta, maxlen=6, nmut=3)
+        tb = mut(rng, ta, maxlen=6, nmut=3)
         steps.append({"op": "conc_sweep",
                       "actors": [bk(o, actor="bk1", tree=ta), bk(rng.choice(OPTS_POOL[:6]), actor="bk2", tree=tb)],
                       "preemptions": 2, "sample": 50 if tier == "quick" else 1000, "seed": seed * 100 + i,
@@ -502,10 +510,10 @@ def damage_archive(rng):
     t.append(node("/s2", "File", b"\x03", mt=(1600000052, 0)))
     steps = [{"op": "tree", "tree": t}, bk(o)]
     for _ in range(rng.randrange(0, 3)):
-        t = mutate_tree(rng, t, maxlen=7)
+        t = mut(rng, t, maxlen=7)
         steps += [{"op": "tree", "tree": t}, bk(o)]
     if rng.random() < 0.4:
-        t = mutate_tree(rng, t, maxlen=7, nmut=3)
+        t = mut(rng, t, maxlen=7, nmut=3)
         steps += [{"op": "tree", "tree": t}, bk(o, crash_at=rng.randrange(16, 40))]
     return steps, o
 
@@ -615,7 +623,7 @@ def gen_c11(tier, seed):
                 else:
                     t.append(node(f"/{sname}/{child}", "File", b"r"))
         o = {"H": rng.choice([1, 2, 3, 1000]), "M": 1000, "S": 1000}
-        t2 = mutate_tree(rng, t, maxlen=3, nmut=1)
+        t2 = mut(rng, t, maxlen=3, nmut=1)
         scens.append({"id": sid("C11", "sib", i), "props": ["C11"], "mode": "clean", "tags": ["walk", "prefix-siblings"],
                       "steps": [{"op": "tree", "tree": t}, {"op": "walk"}, bk(o), {"op": "list", "band": 0},
                                 {"op": "tree", "tree": t2}, {"op": "walk"}, bk(o), {"op": "restore", "band": 1}]})
@@ -660,7 +668,7 @@ def gen_c12(tier, seed):
             steps.append({"op": "restore", "band": 0, "subtree": d})
         if i % 3 == 0:
             # on a stitched (interrupted) version too
-            t2 = mutate_tree(rng, t, names=["a", "ab", "é", "éa", "日"], maxlen=5)
+            t2 = mut(rng, t, names=["a", "ab", "é", "éa", "日"], maxlen=5)
             steps += [{"op": "tree", "tree": t2}, bk(o, crash_at=rng.randrange(14, 40))]
             for sub in subs[:6]:
                 steps.append({"op": "list", "band": 1, "subtree": sub})
@@ -783,7 +791,7 @@ def gen_c18(tier, seed):
                  {"op": "diff", "band": -2, "include_unchanged": True}]
         t2 = t
         for _ in range(rng.randrange(1, 3)):
-            t2 = mutate_tree(rng, t2, maxlen=5, names=["a", "ab", "a.b", "b", "-", "é", "z", "d"],
+            t2 = mut(rng, t2, maxlen=5, names=["a", "ab", "a.b", "b", "-", "é", "z", "d"],
                              mtimes=cvlib.MTIMES + [(1600000000, 1), (1600000000, 2), (1600000001, 123456788), (1600000001, 5), (1600000002, 0), (1600000002, 999999998)])
             steps += [{"op": "tree", "tree": t2}, {"op": "diff", "band": -2, "include_unchanged": rng.random() < 0.5},
                       {"op": "diff", "band": 0, "include_unchanged": False}, bk(o),
